@@ -1,9 +1,10 @@
-//! Scenario lists per property and tier.
+//! Scenario lists per property and tier (managed pool).
 use dpmc::report::{CheckSpec, Scenario, Tier};
 use serde_json::json;
 
 use crate::conc::{run_conc, ConcScenario, Op};
 use crate::mworld::{HookCfg, Out, PoolCfg};
+use crate::seq::{run_seq, SeqScenario};
 
 fn get() -> Op {
     Op::Get { nb: false, cancel: true }
@@ -16,7 +17,22 @@ fn conc(name: &str, about: &str, p: u32, f: u32, sc: ConcScenario) -> Scenario {
     Scenario::new(name, about, p, f, move || run_conc(&sc))
 }
 
+/// Same, but switching actors at operation boundaries costs a preemption
+/// (keeps 3-actor scenarios small enough for the quick tier).
+fn conc_paid(name: &str, about: &str, p: u32, f: u32, mut sc: ConcScenario) -> Scenario {
+    sc.free_boundaries = false;
+    let about = format!("{} [switches at operation boundaries count as preemptions]", about);
+    Scenario::new(name, &about, p, f, move || run_conc(&sc))
+}
+
+fn seq(name: &str, about: &str, f: u32, sc: SeqScenario) -> Scenario {
+    Scenario::new(name, about, 0, f, move || run_seq(&sc))
+}
+
 const FAULTY: &[Out] = &[Out::Ok, Out::Err, Out::PendOk, Out::PendErr, Out::Never, Out::Panic];
+const ERRS: &[Out] = &[Out::Ok, Out::Err, Out::PendOk, Out::PendErr];
+const SUSPENDING: &[Out] = &[Out::PendOk, Out::Ok, Out::PendErr, Out::Panic];
+const SYNC_MENU: &[Out] = &[Out::Ok, Out::Err, Out::Panic];
 
 fn faulty_cfg(ms: usize) -> PoolCfg {
     let mut c = PoolCfg::simple(ms);
@@ -25,13 +41,55 @@ fn faulty_cfg(ms: usize) -> PoolCfg {
     c
 }
 
-pub fn c01_scenarios(tier: Tier) -> Vec<Scenario> {
-    let (p, f) = match tier {
-        Tier::Quick => (2, 1),
-        Tier::Thorough => (3, 2),
+fn hook(asynchronous: bool, menu: &[Out]) -> HookCfg {
+    let menu: Vec<Out> = if asynchronous {
+        menu.to_vec()
+    } else {
+        let mut m: Vec<Out> = menu.iter().copied().filter(|o| matches!(o, Out::Ok | Out::Err | Out::Panic)).collect();
+        if m.is_empty() || m[0] != Out::Ok {
+            m.insert(0, Out::Ok);
+            m.dedup();
+        }
+        m
     };
+    HookCfg { asynchronous, menu }
+}
+
+/// Hook layouts: 0 = none, 1 = one sync per kind, 2 = one async per kind,
+/// 3 = (sync, async) per kind, 4 = (async, sync) per kind.
+fn with_hooks(mut c: PoolCfg, layout: u8, menu: &[Out]) -> PoolCfg {
+    let v = match layout {
+        0 => vec![],
+        1 => vec![hook(false, menu)],
+        2 => vec![hook(true, menu)],
+        3 => vec![hook(false, menu), hook(true, menu)],
+        _ => vec![hook(true, menu), hook(false, menu)],
+    };
+    c.pre_recycle = v.clone();
+    c.post_recycle = v.clone();
+    c.post_create = v;
+    c
+}
+
+struct B {
+    p: u32,
+    f: u32,
+    thorough: bool,
+}
+
+fn bounds(tier: Tier) -> B {
+    match tier {
+        Tier::Quick => B { p: 2, f: 1, thorough: false },
+        Tier::Thorough => B { p: 3, f: 2, thorough: true },
+    }
+}
+
+// ---------------------------------------------------------------- C01 / C02
+
+pub fn conc_core(tier: Tier, base: &[&'static str]) -> Vec<Scenario> {
+    let b = bounds(tier);
+    let (p, f) = (b.p, b.f);
     let mut v = Vec::new();
-    let base = &["C01", "C02"];
     for ms in [1usize, 2] {
         let mut sc = ConcScenario::new(faulty_cfg(ms), vec![vec![get(), Op::Release], vec![get(), Op::Release]], base);
         v.push(conc(&format!("return-vs-get/ms{}", ms), "A and B each get and return: the push -> unlock -> add_permits window of a return racing an acquire", p, f, sc.clone()));
@@ -40,15 +98,311 @@ pub fn c01_scenarios(tier: Tier) -> Vec<Scenario> {
     }
     let sc = ConcScenario::new(faulty_cfg(1), vec![vec![get(), Op::Take], vec![get(), Op::Release]], base);
     v.push(conc("take-vs-get/ms1", "A takes its object while B acquires", p, f, sc));
-    let mut sc = ConcScenario::new(faulty_cfg(2), vec![vec![Op::Retain], vec![get(), Op::Release], vec![get_nb(), Op::Release]], base);
+    let mut sc = ConcScenario::new(faulty_cfg(2), vec![vec![Op::Retain], vec![get(), Op::Release]], base);
     sc.prefill = 2;
-    v.push(conc("retain-vs-get/ms2", "retain() removes idle objects while two getters run", p.min(2), f, sc));
+    v.push(conc("retain-vs-get/ms2", "retain() removes idle objects while a getter runs", p, f, sc));
     let mut c = faulty_cfg(1);
-    c.post_create = vec![HookCfg { asynchronous: true, menu: FAULTY.to_vec() }];
+    c.post_create = vec![hook(true, FAULTY)];
     let sc = ConcScenario::new(c, vec![vec![get(), Op::Release], vec![get(), Op::Release]], base);
     v.push(conc("post-create-fails/ms1", "post_create hook may fail, hang or panic with a waiter queued", p, f, sc));
     let sc = ConcScenario::new(PoolCfg::simple(0), vec![vec![get_nb()], vec![get()]], base);
     v.push(conc("max-size-zero", "max_size 0: nobody ever gets an object", p, f, sc));
+    // three actors: two waiters, one return
+    let mut c3 = PoolCfg::simple(1);
+    c3.create_menu = vec![Out::Ok, Out::Err, Out::PendErr];
+    let sc = ConcScenario::new(c3.clone(), vec![vec![get(), Op::Release], vec![get(), Op::Release], vec![get(), Op::Release]], base);
+    if b.thorough {
+        v.push(conc_paid("two-waiters-one-return/ms1", "three getters on one slot: every return must wake exactly the next waiter, a failing create must pass the slot on", 3, 2, sc));
+    } else {
+        v.push(conc_paid("two-waiters-one-return/ms1", "three getters on one slot: every return must wake exactly the next waiter, a failing create must pass the slot on", 2, 1, sc));
+    }
+    let sc = ConcScenario::new(c3, vec![vec![get(), Op::Take], vec![get(), Op::Release], vec![get_nb(), Op::Release]], base);
+    if b.thorough {
+        v.push(conc_paid("take-with-waiter/ms1", "take() with a waiter queued and a non-blocking getter racing", 3, 2, sc));
+    } else {
+        v.push(conc_paid("take-with-waiter/ms1", "take() with a waiter queued and a non-blocking getter racing", 2, 1, sc));
+    }
+    if b.thorough {
+        let sc = ConcScenario::new(faulty_cfg(2), vec![vec![get(), Op::Release], vec![get(), Op::Take], vec![get(), Op::Release]], base);
+        v.push(conc_paid("three-getters/ms2", "three getters on two slots with every fault", 3, 2, sc));
+        let mut sc = ConcScenario::new(faulty_cfg(2), vec![vec![Op::Retain], vec![get(), Op::Release], vec![get_nb(), Op::Release]], base);
+        sc.prefill = 2;
+        v.push(conc_paid("retain-vs-two-getters/ms2", "retain() vs two getters", 3, 1, sc));
+        let mut c = faulty_cfg(1);
+        c.lifo = true;
+        let mut sc = ConcScenario::new(c, vec![vec![get(), Op::Release, get(), Op::Release], vec![get(), Op::Release]], base);
+        sc.prefill = 1;
+        v.push(conc("lifo-two-rounds/ms1", "Lifo pool, one actor goes around twice", 2, 2, sc));
+    }
+    v
+}
+
+pub fn seq_core(tier: Tier, base: &[&'static str]) -> Vec<Scenario> {
+    let b = bounds(tier);
+    let mut v = Vec::new();
+    for ms in [1usize, 2] {
+        let mut sc = SeqScenario::new(faulty_cfg(ms), if b.thorough { 8 } else { 6 }, base);
+        sc.max_tasks = if ms == 1 { 2 } else { 3 };
+        sc.retain = true;
+        sc.prefill = 0;
+        v.push(seq(&format!("histories/ms{}", ms), "every history of gets (blocking / non-blocking), polls, gate completions, cancellations, returns, takes and retains", if b.thorough { 3 } else { 2 }, sc.clone()));
+        sc.prefill = ms;
+        v.push(seq(&format!("histories-prefilled/ms{}", ms), "same, starting from a pool full of idle objects (recycle paths)", if b.thorough { 3 } else { 2 }, sc));
+    }
+    v
+}
+
+// ---------------------------------------------------------------- C03
+
+pub fn c03_scenarios(tier: Tier) -> Vec<Scenario> {
+    let b = bounds(tier);
+    let base: &[&'static str] = &["C03"];
+    let mut v = Vec::new();
+    // every env call suspends by default, so each await point of get() is a
+    // point where the call can be abandoned (cancel = 1 fault)
+    for (name, prefill) in [("fresh", 0usize), ("idle", 1usize)] {
+        let mut c = PoolCfg::simple(1);
+        c.create_menu = SUSPENDING.to_vec();
+        c.recycle_menu = SUSPENDING.to_vec();
+        c = with_hooks(c, 2, SUSPENDING);
+        let mut sc = ConcScenario::new(c, vec![vec![get(), Op::Release], vec![get(), Op::Release]], base);
+        sc.prefill = prefill;
+        v.push(conc_paid(&format!("abandon-every-await/{}/ms1", name), "two getters on one slot; every manager / hook call suspends, each suspension may be abandoned (dropped future or injected panic), including a waiter that was already granted the slot", if b.thorough { 3 } else { 2 }, if b.thorough { 2 } else { 1 }, sc));
+    }
+    let mut c = PoolCfg::simple(2);
+    c.create_menu = SUSPENDING.to_vec();
+    c.recycle_menu = SUSPENDING.to_vec();
+    c = with_hooks(c, 4, SUSPENDING);
+    let mut sc = ConcScenario::new(c, vec![vec![get(), Op::Release], vec![get(), Op::Release]], base);
+    sc.prefill = 2;
+    v.push(conc_paid("abandon-with-two-hooks/ms2", "two hooks per kind (async, sync), two idle objects: abandonment after one or more rejected objects", if b.thorough { 3 } else { 1 }, if b.thorough { 2 } else { 1 }, sc));
+    // sequential differential: every reachable state x every suspension point
+    for (layout, ms, prefill) in [(2u8, 1usize, 1usize), (3, 2, 2), (0, 2, 1)] {
+        let mut c = PoolCfg::simple(ms);
+        c.create_menu = SUSPENDING.to_vec();
+        c.recycle_menu = SUSPENDING.to_vec();
+        c = with_hooks(c, layout, SUSPENDING);
+        let mut sc = SeqScenario::new(c, if b.thorough { 8 } else { 6 }, base);
+        sc.max_tasks = 2;
+        sc.prefill = prefill;
+        sc.take = false;
+        sc.gets_nonblocking = false;
+        v.push(seq(&format!("abandon-histories/hooks{}/ms{}", layout, ms), "histories in which every manager / hook call suspends and any pending get() may be abandoned at that point", if b.thorough { 3 } else { 2 }, sc));
+    }
+    v
+}
+
+// ---------------------------------------------------------------- C04 / C13
+
+pub fn c04_scenarios(tier: Tier, base: &[&'static str]) -> Vec<Scenario> {
+    let b = bounds(tier);
+    let mut v = Vec::new();
+    for layout in 0u8..=4 {
+        for lifo in [false, true] {
+            if !b.thorough && lifo && layout != 3 && layout != 0 {
+                continue;
+            }
+            let ms = if layout == 0 { 3 } else { 2 };
+            let mut c = PoolCfg::simple(ms);
+            c.lifo = lifo;
+            c.create_menu = ERRS.to_vec();
+            c.recycle_menu = ERRS.to_vec();
+            c = with_hooks(c, layout, ERRS);
+            let mut sc = SeqScenario::new(c, if b.thorough { 9 } else { 7 }, base);
+            sc.max_tasks = 1;
+            sc.prefill = ms;
+            sc.take = false;
+            sc.gets_nonblocking = false;
+            sc.cancel = true;
+            sc.stop_anywhere = false;
+            let f = if layout >= 3 { if b.thorough { 3 } else { 2 } } else if b.thorough { 4 } else { 3 };
+            v.push(seq(&format!("outcomes/hooks{}/{}", layout, if lifo { "lifo" } else { "fifo" }), "one get at a time over a pool of idle objects: every assignment of ok / error / delayed outcomes to create, recycle and each hook, plus abandonment", f, sc));
+        }
+    }
+    // sync hooks may also panic
+    let mut c = PoolCfg::simple(2);
+    c.create_menu = vec![Out::Ok, Out::Err];
+    c.recycle_menu = vec![Out::Ok, Out::Err, Out::Panic];
+    c = with_hooks(c, 1, SYNC_MENU);
+    let mut sc = SeqScenario::new(c, if b.thorough { 6 } else { 5 }, base);
+    sc.max_tasks = 1;
+    sc.prefill = 2;
+    sc.take = false;
+    sc.stop_anywhere = false;
+    v.push(seq("outcomes/sync-hooks-panic", "sync hooks and recycle may panic", if b.thorough { 3 } else { 2 }, sc));
+    v
+}
+
+// ---------------------------------------------------------------- C06
+
+pub fn c06_scenarios(tier: Tier) -> Vec<Scenario> {
+    let b = bounds(tier);
+    let base: &[&'static str] = &["C06"];
+    let (p, f) = (b.p, b.f.min(1));
+    let mut v = Vec::new();
+    let mut slow = PoolCfg::simple(1);
+    slow.create_menu = vec![Out::Ok, Out::PendOk, Out::PendErr];
+    slow.recycle_menu = vec![Out::Ok, Out::PendOk, Out::PendErr];
+    let sc = ConcScenario::new(slow.clone(), vec![vec![get(), Op::Release], vec![get(), Op::Release], vec![Op::Close]], base);
+    v.push(conc_paid("close-vs-waiter/ms1", "close() while one getter holds the slot and another waits for it", if b.thorough { 3 } else { 2 }, f, sc));
+    let mut sc = ConcScenario::new(slow.clone(), vec![vec![get(), Op::Release], vec![Op::Close, get_nb(), get()]], base);
+    sc.prefill = 1;
+    v.push(conc("close-vs-recycling-getter/ms1", "close() while a getter is creating / recycling; gets after close", p, f, sc));
+    let mut sc = ConcScenario::new(PoolCfg::simple(2), vec![vec![get(), Op::Release], vec![Op::Close]], base);
+    sc.prefill = 1;
+    v.push(conc("close-vs-return/ms2", "an object is returned on another thread while close() runs (window between unlock and add_permits)", p.max(2), 0, sc.clone()));
+    sc.actors = vec![vec![get(), Op::Take], vec![Op::Close]];
+    v.push(conc("close-vs-take/ms2", "an object is taken while close() runs", p.max(2), 0, sc.clone()));
+    sc.actors = vec![vec![Op::Resize(1)], vec![Op::Close, Op::Status]];
+    sc.prefill = 2;
+    v.push(conc("close-vs-resize/ms2", "resize(n) racing with close(): the closed pool must report max_size 0", p.max(2), 0, sc.clone()));
+    sc.actors = vec![vec![Op::Retain], vec![Op::Close]];
+    v.push(conc("close-vs-retain/ms2", "retain racing with close()", p.max(2), 0, sc.clone()));
+    sc.actors = vec![vec![Op::Close, Op::Resize(2), get_nb()], vec![Op::Close, get()]];
+    v.push(conc("close-twice-then-use/ms2", "two close() calls, then resize and gets", p, 0, sc.clone()));
+    let mut sc = ConcScenario::new(PoolCfg::simple(2), vec![vec![get(), Op::DropPool, Op::Release], vec![get(), Op::Close, Op::DropPool, Op::Release]], base);
+    sc.drop_controller_handle = true;
+    v.push(conc("objects-outlive-pool/ms2", "every pool handle is dropped while objects are still checked out; they are then dropped", p, 0, sc));
+    // histories with close anywhere
+    for ms in [1usize, 2] {
+        let mut c = PoolCfg::simple(ms);
+        c.create_menu = vec![Out::Ok, Out::PendOk, Out::Err];
+        c.recycle_menu = vec![Out::Ok, Out::PendOk, Out::Err];
+        let mut sc = SeqScenario::new(c, if b.thorough { 8 } else { 6 }, base);
+        sc.close = true;
+        sc.max_tasks = 2;
+        sc.resize_targets = vec![2];
+        sc.retain = false;
+        sc.prefill = ms.min(1);
+        v.push(seq(&format!("close-histories/ms{}", ms), "close() at every position of every history of gets, polls, returns, takes, cancels and resize", if b.thorough { 2 } else { 1 }, sc));
+    }
+    v
+}
+
+// ---------------------------------------------------------------- C07
+
+pub fn c07_scenarios(tier: Tier) -> Vec<Scenario> {
+    let b = bounds(tier);
+    let base: &[&'static str] = &["C07"];
+    let mut v = Vec::new();
+    for ms in [0usize, 1, 2] {
+        let mut c = PoolCfg::simple(ms);
+        c.create_menu = vec![Out::Ok, Out::PendOk, Out::Err];
+        let mut sc = SeqScenario::new(c, if b.thorough { 8 } else if ms == 0 { 6 } else { 5 }, base);
+        sc.resize_targets = vec![0, 1, 2, 3];
+        sc.max_tasks = 3;
+        sc.take = true;
+        sc.gets_nonblocking = true;
+        sc.cancel = true;
+        v.push(seq(&format!("resize-histories/ms{}", ms), "every history of gets, polls, returns, takes, cancels and resize(0..=3)", if b.thorough { 2 } else { 1 }, sc));
+    }
+    let mut c = PoolCfg::simple(2);
+    c.recycle_menu = vec![Out::Ok, Out::Err];
+    let mut sc = SeqScenario::new(c, if b.thorough { 7 } else { 5 }, base);
+    sc.resize_targets = vec![0, 1, 3];
+    sc.prefill = 2;
+    sc.retain = true;
+    sc.max_tasks = 2;
+    v.push(seq("resize-histories-prefilled/ms2", "same from a pool with two idle objects, with retain", 1, sc));
+    // thread level
+    let (p, f) = (b.p, b.f.min(1));
+    let mut slow = PoolCfg::simple(2);
+    slow.create_menu = vec![Out::Ok, Out::PendOk, Out::PendErr];
+    let mut sc = ConcScenario::new(slow.clone(), vec![vec![get(), Op::Release], vec![Op::Resize(1)]], base);
+    sc.prefill = 1;
+    v.push(conc("shrink-vs-return/ms2", "shrink racing with a get / return on another thread", p, f, sc.clone()));
+    sc.actors = vec![vec![get(), Op::Take], vec![Op::Resize(1)]];
+    v.push(conc("shrink-vs-take/ms2", "shrink racing with take()", p, f, sc.clone()));
+    let sc2 = ConcScenario::new(PoolCfg::simple(1), vec![vec![get(), Op::Release], vec![get(), Op::Release], vec![Op::Resize(2)]], base);
+    v.push(conc_paid("grow-with-waiter/ms1", "grow while a getter waits: the added slot must be usable at once", if b.thorough { 3 } else { 2 }, 0, sc2));
+    sc.actors = vec![vec![Op::Resize(1), Op::Resize(2)], vec![get(), Op::Release], vec![get(), Op::Release]];
+    sc.prefill = 0;
+    v.push(conc_paid("shrink-grow-vs-getters/ms2", "shrink then grow while two getters run", if b.thorough { 3 } else { 2 }, 0, sc.clone()));
+    let sc3 = ConcScenario::new(PoolCfg::simple(2), vec![vec![Op::Resize(1)], vec![Op::Resize(3)], vec![get(), Op::Release]], base);
+    v.push(conc_paid("resize-vs-resize/ms2", "two concurrent resizes and a getter", if b.thorough { 3 } else { 2 }, 0, sc3));
+    v
+}
+
+// ---------------------------------------------------------------- C08
+
+pub fn c08_scenarios(tier: Tier) -> Vec<Scenario> {
+    let b = bounds(tier);
+    let base: &[&'static str] = &["C08"];
+    let mut v = Vec::new();
+    for lifo in [false, true] {
+        for ms in [2usize, 3] {
+            let mut c = PoolCfg::simple(ms);
+            c.lifo = lifo;
+            c.recycle_menu = vec![Out::Ok, Out::Err];
+            let mut sc = SeqScenario::new(c, if b.thorough { 8 } else { 6 }, base);
+            sc.max_tasks = 3;
+            sc.retain = true;
+            sc.cancel = false;
+            sc.resize_targets = if ms == 3 { vec![2] } else { vec![] };
+            sc.prefill = if ms == 3 { 3 } else { 0 };
+            sc.gets_nonblocking = false;
+            v.push(seq(&format!("order-histories/{}/ms{}", if lifo { "lifo" } else { "fifo" }, ms), "every history of gets, returns in any order, takes, retains, resizes and rejected recycles; the object offered first must be the longest-idle (Fifo) / most recently returned (Lifo) one, create only when nothing idle is left", 2, sc));
+        }
+    }
+    v
+}
+
+// ---------------------------------------------------------------- C09
+
+pub fn c09_scenarios(tier: Tier) -> Vec<Scenario> {
+    let b = bounds(tier);
+    let base: &[&'static str] = &["C09"];
+    let mut v = Vec::new();
+    for (ms, prefill) in [(2usize, 2usize), (3, 3)] {
+        let mut c = PoolCfg::simple(ms);
+        c.recycle_menu = vec![Out::Ok, Out::Err];
+        let mut sc = SeqScenario::new(c, if b.thorough { 7 } else { 5 }, base);
+        sc.retain = true;
+        sc.take = true;
+        sc.max_tasks = 2;
+        sc.prefill = prefill;
+        sc.resize_targets = vec![1, 3];
+        sc.close = true;
+        sc.gets_nonblocking = false;
+        v.push(seq(&format!("retain-take-histories/ms{}", ms), "every history mixing retain (all predicates as subsets of the idle objects, stateful by construction), take, gets, returns, resize and close; detach ledger and capacity probe at the end", 1, sc));
+    }
+    let (p, f) = (b.p, 0);
+    let mut sc = ConcScenario::new(PoolCfg::simple(2), vec![vec![Op::Retain], vec![get(), Op::Release]], base);
+    sc.prefill = 2;
+    v.push(conc("retain-vs-get-return/ms2", "retain racing with a get and a return", p, f, sc.clone()));
+    sc.actors = vec![vec![Op::Retain], vec![get(), Op::Take]];
+    v.push(conc("retain-vs-take/ms2", "retain racing with get + take", p, f, sc.clone()));
+    sc.actors = vec![vec![Op::Retain, Op::Retain], vec![get(), Op::Release, get(), Op::Take]];
+    v.push(conc("retain-twice-vs-get-take/ms2", "two retains racing with return and take", if b.thorough { 3 } else { 2 }, f, sc));
+    v
+}
+
+// ---------------------------------------------------------------- C11
+
+pub fn c11_scenarios(tier: Tier) -> Vec<Scenario> {
+    let b = bounds(tier);
+    let base: &[&'static str] = &["C11"];
+    let mut v = Vec::new();
+    // interleave the status() call itself
+    let mut sc = ConcScenario::new(faulty_cfg(1), vec![vec![get(), Op::Release], vec![Op::Status, Op::Status]], base);
+    v.push(conc("status-vs-get-return/ms1", "status() on its own thread while a get and a return run with every fault", b.p, b.f, sc.clone()));
+    sc.prefill = 1;
+    sc.actors = vec![vec![get(), Op::Take], vec![Op::Status, Op::Status]];
+    v.push(conc("status-vs-take/ms1", "status() while an idle object is recycled and taken", b.p, b.f, sc.clone()));
+    let mut c = faulty_cfg(2);
+    c.post_create = vec![hook(false, SYNC_MENU), hook(true, FAULTY)];
+    let sc2 = ConcScenario::new(c, vec![vec![get(), Op::Release], vec![get(), Op::Release], vec![Op::Status]], base);
+    v.push(conc_paid("status-vs-failing-post-create/ms2", "failing / panicking post_create hooks (the 0.9.5 overflow) observed by status()", if b.thorough { 3 } else { 2 }, b.f, sc2));
+    v.extend(seq_core(tier, base));
+    let mut c = PoolCfg::simple(2);
+    c.create_menu = vec![Out::Ok, Out::Err, Out::PendOk];
+    let mut sc = SeqScenario::new(c, if b.thorough { 7 } else { 5 }, base);
+    sc.resize_targets = vec![0, 1, 3];
+    sc.close = true;
+    sc.retain = true;
+    sc.max_tasks = 2;
+    sc.prefill = 1;
+    v.push(seq("status-after-resize-close/ms2", "status() at every quiescent point of histories with resize, close, retain and take", 1, sc));
     v
 }
 
@@ -57,17 +411,31 @@ pub fn spec_for(prop: &str, tier: Tier) -> Option<CheckSpec> {
         "sequentially consistent interleavings only (Relaxed atomics are explored as SC)".to_string(),
         "tokio::sync::Semaphore and std::sync::Mutex operations are atomic and correct".to_string(),
         "injected panics unwind as one scheduler step and are only injected while no pool lock is held".to_string(),
+        "bounded: the listed scenarios, at most 3 actors / 3 concurrent gets, max_size <= 3, at most 2 hooks per kind".to_string(),
     ];
     let scenarios = match prop {
-        "C01" => c01_scenarios(tier),
+        "C01" => conc_core(tier, &["C01"]),
+        "C02" => {
+            let mut v = conc_core(tier, &["C02"]);
+            v.extend(seq_core(tier, &["C02"]));
+            v
+        }
+        "C03" => c03_scenarios(tier),
+        "C04" => c04_scenarios(tier, &["C04"]),
+        "C13" => c04_scenarios(tier, &["C13"]),
+        "C06" => c06_scenarios(tier),
+        "C07" => c07_scenarios(tier),
+        "C08" => c08_scenarios(tier),
+        "C09" => c09_scenarios(tier),
+        "C11" => c11_scenarios(tier),
         _ => return None,
     };
     Some(CheckSpec {
         property: prop.to_string(),
         level: "model_checking",
-        rule: "stateless DFS over every schedule (preemption-bounded), environment answer and cancellation (fault-bounded) of each scenario; non-trivial = execution that used at least one preemption or fault; distinct = distinct end-of-execution observation tuple".to_string(),
+        rule: "stateless DFS over every schedule (preemption bound p), environment answer, cancellation (fault bound f) and operation history (depth bound) of each scenario on the real pool; non-trivial = execution that used at least one preemption or fault; distinct = distinct end-of-execution observation tuple (results of all gets, fate of every object)".to_string(),
         assumptions,
-        bounds: json!({"tier": tier.name()}),
+        bounds: json!({"tier": tier.name(), "per_scenario": "see coverage.scenarios[].bounds"}),
         scenarios,
     })
 }
